@@ -117,6 +117,27 @@ def cfg_job(prop, seed, n, hand_share=0.2, byte_complete=False):
     return {"episodes": eps}
 
 
+def pcfg_job(prop, seed, n):
+    """parametric Lark grammars (docs/parametric.md shapes) validated by spec/Trace_CfgP.tla"""
+    from . import paramgen
+    rng = random.Random(f"{prop}-pcfg-{seed}")
+    eps = []
+    for i in range(n):
+        g = paramgen.rand_grammar(rng)
+        text = paramgen.lark_text(g, rng)
+        canonical = 1 if rng.random() < 0.3 else 0
+        ab = sorted(set(paramgen.alphabet(g)) | {122})
+        multi = set(paramgen.lang_tokens(g, rng, n_multi=rng.choice([10, 20, 30]), maxlen=rng.choice([3, 4, 5])))
+        for _ in range(5):
+            multi.add(tuple(rng.choice(ab) for _ in range(rng.randint(2, 3))))
+        multi = sorted(multi)
+        voc = vocabs.small_exact(ab, [list(m) for m in multi], canonical)
+        eps.append({"gid": f"pcfg:{i}", "mode": prop, "seed": rng.randrange(1 << 30), "steps": rng.randint(6, 16),
+                    "gram": {"kind": "lark", "text": text}, "cfgs": [{"vocab": voc, "vid": 0, "slices": []}], "w": dict(W_EXACT),
+                    "eos_pct": rng.choice([10, 25]), "log_vocab": 1, "init_extra": {"pcfg": paramgen.spec_json(g)}})
+    return {"episodes": eps}
+
+
 W_TOK = {"mask": 100, "fft_side": 100, "acc": 80, "status": 10, "rollback": 8, "commit_try": 0, "commit_batch": 0,
          "bad_token": 60, "clone_mask": 10}
 
